@@ -95,6 +95,13 @@ func (Engine) Run(ctx *hk.RunCtx) error {
 				}
 			}
 		}
+		if mode == "msg" && ctx.From == 0 {
+			for i := range boundaryCases() {
+				if err := runOne(ctx, mode, fixedBase+uint64(i)); err != nil {
+					return err
+				}
+			}
+		}
 		for i := ctx.From; i < ctx.From+ctx.N; i++ {
 			if err := runOne(ctx, mode, uint64(i)); err != nil {
 				return err
